@@ -58,12 +58,12 @@ func TestC02(t *testing.T) {
 	r := vf.Begin(t, "C02")
 	defer r.End()
 	defer perturbReport(r)
-	r.Describe("PRNG scenarios on one client connection (NewConn/Handshake/Write) in a synctest bubble against a scripted x/net-based server: 1-16 (thorough up to 48) concurrent callers with 7 methods, custom/mixed-case/repeated fields, connection-specific fields that must be dropped, bodies none/buffered/streamed (declared or unknown length, 1 B..40 KiB reads) up to 300 KiB; "+
+	r.Describe("PRNG scenarios on one client connection (NewConn/Handshake/Write) in a synctest bubble against a scripted x/net-based server: 1-16 (thorough up to 32) concurrent callers with 7 methods, custom/mixed-case/repeated fields, connection-specific fields that must be dropped, bodies none/buffered/streamed (declared or unknown length, 1 B..40 KiB reads) up to 300 KiB; "+
 		"the server opens its windows in PRNG increments so uploads interleave, then answers in PRNG order with responses encoded by the harness' HPACK encoder (random representations, dynamic-table reuse across responses), header blocks cut at arbitrary bytes into HEADERS+CONTINUATION, padding, DATA chunkings with empty/padded frames, optional trailers, frames of different streams interleaved, while honouring the credit the client returns. "+
 		"Oracle at the server: every request arrives exactly as built (pseudo-headers, lower-cased fields in order, no connection-specific field, body bytes, one END_STREAM) on odd strictly increasing stream ids; at each caller: exactly one outcome, nil error, and exactly the status/fields/trailers/body scripted for the stream its tag arrived on. "+
 		"Non-trivial = at least 2 callers or a split/padded response; distinct = distinct trait vectors.",
 		"x/net Framer/HPACK decoder read the client's frames correctly", "fasthttp accessors (StatusCode, Header.PeekAll, Body) are value-preserving")
-	n := r.Pick(300, 20000)
+	n := r.Pick(300, 4000)
 	for i := 0; i < n; i++ {
 		id := fmt.Sprintf("c%d", i)
 		if !r.Want(i, id) {
@@ -75,7 +75,7 @@ func TestC02(t *testing.T) {
 }
 
 func c02Scenario(r *vf.Run, t *testing.T, id string, rng *rand.Rand) {
-	k := 1 + rng.Intn(r.Pick(16, 48))
+	k := 1 + rng.Intn(r.Pick(16, 32))
 	if rng.Intn(2) == 0 {
 		k = 1 + rng.Intn(6)
 	}
